@@ -131,6 +131,32 @@ func (lc *linCtx) lenVar(x ssa.Value) linExpr {
 		n := lc.of(mk.Len)
 		lc.facts = append(lc.facts, geq(e, n), geq(n, e))
 	}
+	switch y := lc.strip(x).(type) {
+	case *ssa.BinOp:
+		// string concatenation: the lengths add up
+		if b, isB := y.Type().Underlying().(*types.Basic); isB && b.Info()&types.IsString != 0 && y.Op == token.ADD && lc.depth < 20 {
+			lc.depth++
+			sum := lc.lenVar(y.X).add(lc.lenVar(y.Y), 1)
+			lc.depth--
+			lc.facts = append(lc.facts, geq(e, sum), geq(sum, e))
+		}
+	case *ssa.Slice:
+		// x[lo:hi] that was evaluated (did not panic): 0 <= lo <= hi <= len(x), and its length is hi - lo
+		if _, isArr := deref(y.X.Type()).Underlying().(*types.Array); !isArr && y.Max == nil && lc.depth < 20 {
+			lc.depth++
+			lx := lc.lenVar(y.X)
+			lo, hi := linConst(0), lx
+			if y.Low != nil {
+				lo = lc.of(y.Low)
+			}
+			if y.High != nil {
+				hi = lc.of(y.High)
+			}
+			lc.depth--
+			d := hi.add(lo, -1)
+			lc.facts = append(lc.facts, lo, geq(hi, lo), geq(lx, hi), geq(e, d), geq(d, e))
+		}
+	}
 	return e
 }
 
@@ -753,6 +779,10 @@ func relevantDisj(base []linExpr, disj [][]linAlt) [][]linAlt {
 	last := base[len(base)-1]
 	for v := range last.t {
 		vars[v] = true
+	}
+	if len(last.t) == 0 {
+		// the goal is a constant (a consistency question about the facts themselves): everything is relevant
+		return disj
 	}
 	touches := func(e linExpr) bool {
 		for v := range e.t {
